@@ -50,6 +50,7 @@ class Generator:
     # ------------------------------------------------------------------------------
     def next_step(self, i: int):
         m = self.m
+        self.cur_i = i
         if i < self.p.get("n_src", 2) or not m.tables:
             st = self.g_src()
             st["s"] = 0
@@ -649,6 +650,104 @@ class Generator:
         if lid_tok is None:
             return self.plan.pop(0)(None)
         return {"op": "ref", "t": l.id, "how": "item", "name": l.m.name_of_tok(lid_tok)}
+
+    def eq_on(self, lt_, rt_):
+        """an equality `on` between decodable int columns of comparable value ranges, or None"""
+        T = self.m.model.toks
+        li = [t for t in self.addressable(lt_, kinds=("int",), decodable=True, visible_only=True) if len(T[t].offs) == 1 and T[t].T]
+        ri = [t for t in self.addressable(rt_, kinds=("int",), decodable=True, visible_only=True) if len(T[t].offs) == 1 and T[t].T]
+        pairs = [(a, b) for a in li for b in ri if T[a].mod == T[b].mod]
+        if not pairs:
+            return None
+        a, b = self.rng.choice(pairs)
+        na, nb = lt_.m.name_of_tok(a), rt_.m.name_of_tok(b)
+        da = W.v(T[a].T, T[a].c, 0) + T[a].offs[0] * W.OFF
+        db = W.v(T[b].T, T[b].c, 0) + T[b].offs[0] * W.OFF
+        return [{"p": "eqx", "a": {"o": na}, "b": {"ro": nb}, "da": da, "db": db}]
+
+    def g_join_chain_scenario(self):
+        """three narrow tables (a few columns each), filters on some of them, joined twice: the
+        second join sees a left operand that is itself a join (with merged WHERE clauses on SQL)"""
+        m = self.m
+        rng = self.rng
+        T = m.model.toks
+
+        def usable(p):
+            return not p.m.grouping and p.m.rowid and all(p.m.name_of_tok(t) for t in p.m.rowid) and len(self.addressable(p, kinds=("int",), decodable=True, visible_only=True)) >= 2 and (p.nrows or 12) <= 40
+
+        a = self.pick_table(usable)
+        if a is None:
+            return None
+
+        def disjoint(p, others):
+            return all(p.id != o.id and not (p.m.origins & o.m.origins) and not (set(p.m.scope) & set(o.m.scope)) and set(p.real) & set(o.real) for o in others)
+
+        b = self.pick_table(lambda p: usable(p) and disjoint(p, [a]))
+        if b is None:
+            return self.g_src()
+        c = self.pick_table(lambda p: usable(p) and disjoint(p, [a, b]))
+        if c is None:
+            return self.g_src()
+        st = {}
+
+        def narrow(pt):
+            keep = list(pt.m.rowid)
+            ints = [t for t in self.addressable(pt, kinds=("int",), decodable=True, visible_only=True) if t not in keep]
+            keep += rng.sample(ints, min(len(ints), rng.choice([1, 2, 2])))
+            toks = [t for t in pt.m.vis_toks() if t in keep]
+            return {"op": "select", "t": pt.id, "cols": [{"c": pt.m.name_of_tok(t)} for t in toks]}
+
+        def mk_select(key, pt):
+            def f(i):
+                if pt.id not in m.tables:
+                    self.plan.clear()
+                    return None
+                st[key] = f"t{i}"
+                return narrow(pt)
+            return f
+
+        def mk_filter(key, prob):
+            def f(i):
+                p2 = m.tables.get(st.get(key))
+                if p2 is None or rng.random() >= prob:
+                    return None
+                pr = self.g_pred(p2)
+                if not pr:
+                    return None
+                st[key] = f"t{i}"
+                m.note("join_chain_filter:" + key)
+                return {"op": "filter", "t": p2.id, "preds": [pr]}
+            return f
+
+        def mk_join(lkey, rkey, outkey, hows):
+            def f(i):
+                l2, r2 = m.tables.get(st.get(lkey)), m.tables.get(st.get(rkey))
+                if l2 is None or r2 is None:
+                    self.plan.clear()
+                    return None
+                on = self.eq_on(l2, r2)
+                if on is None:
+                    self.plan.clear()
+                    return None
+                st[outkey] = f"t{i}"
+                how = rng.choice(hows)
+                m.note("join_chain:" + outkey + ":" + how)
+                return {"op": "join", "l": l2.id, "r": r2.id, "on": on, "how": how}
+            return f
+
+        self.plan = [
+            mk_filter("a", 0.3),
+            mk_select("b", b),
+            mk_filter("b", 0.6),
+            mk_join("a", "b", "ab", ["inner", "inner", "left"]),
+            mk_filter("ab", 0.3),
+            mk_select("c", c),
+            mk_filter("c", 0.3),
+            mk_join("ab", "c", "abc", ["full", "full", "left", "inner"]),
+        ]
+        st["a"] = f"t{self.cur_i}"
+        m.note("join_chain_scenario")
+        return narrow(a)
 
     def g_mutate_w(self):
         st = self.g_mutate(window=True)
